@@ -63,6 +63,8 @@ def parse_journal(J):
 def definite(lp, f):
     """Is a call of f definitely resolvable by construction (DESIGN.md section 3, C02)?"""
     kind = f["kind"]
+    if f.get("proxied"):
+        return False
     if kind in ("func", "wrapped", "inner"):
         return True
     if kind == "sproperty":
